@@ -28,6 +28,7 @@ type Plan struct {
 	Pair      *PairPlan       `json:"pair,omitempty"`
 	MSE       *MSEPlan        `json:"mse,omitempty"`
 	Meta      *MetaPlan       `json:"meta,omitempty"`
+	Paths     *PathPlan       `json:"paths,omitempty"`
 	Generic   json.RawMessage `json:"generic,omitempty"`
 }
 
